@@ -155,10 +155,11 @@ func taskArgs(c *cli.Context) []string {
 	for k, arg := range c.Args().Slice() {
 		if arg == "--" {
 			dash = k
+			break
 		}
 	}
 
-	if dash >= 0 && dash != c.NArg()-1 {
+	if dash >= 0 {
 		runArgs = c.Args().Slice()[dash+1:]
 	}
 
